@@ -50,3 +50,14 @@ Theorem C15_no_completed_when_started_complete : forall bo fixed mi script,
   count_completed (run_script fixed bo (start mi true) script) = 0%nat.
 Proof. exact no_completed_when_started_complete. Qed.
 Print Assumptions C15_no_completed_when_started_complete.
+
+(* the stopped event is sent only to a tracker that accepted an announce of this run: replies that are
+   failure reasons or HTTP errors never make a tracker a recipient (kind 1504) *)
+Theorem C15_stopped_only_after_an_accepted_announce : forall rs,
+  tracker_accepted rs = true <-> In TAccepted rs.
+Proof.
+  intros rs. unfold tracker_accepted. rewrite existsb_exists. split.
+  - intros (r & Hin & Hr). destruct r; try discriminate. exact Hin.
+  - intros Hin. exists TAccepted. split; [exact Hin|reflexivity].
+Qed.
+Print Assumptions C15_stopped_only_after_an_accepted_announce.
